@@ -165,7 +165,41 @@ def props_obligations(pid):
     for bad in ("Admitted", "admit.", "Axiom ", "Parameter ", "Conjecture "):
         if bad in txt:
             raise CheckError("T.Props.%s.audit" % pid, "forbidden token %r" % bad)
+    # audit every theory file the property file depends on (transitively, via coqdep's output)
+    deps = _vo_deps("theories/Props/%s.vo" % pid)
+    pat = re.compile(r'\b(Admitted|admit|Axiom|Axioms|Parameter|Parameters|Conjecture|Admit Obligations|Unset Guard Checking|Unset Positivity Checking|Unset Universe Checking|bypass_check)\b')
+    for d in sorted(deps):
+        src2 = os.path.join(COQ, d[:-1])  # .vo -> .v
+        if not os.path.exists(src2):
+            continue
+        for i, line in enumerate(open(src2, errors="replace"), 1):
+            code = re.sub(r'\(\*.*?\*\)', '', line)
+            if pat.search(code) and not code.lstrip().startswith("(*"):
+                raise CheckError("T.%s.audit" % pid, "forbidden construct in %s:%d: %s" % (src2, i, line.strip()[:120]))
     return names, closed, o
+
+
+def _vo_deps(target):
+    """Transitive .vo dependencies of a target inside coq/theories, from coq_makefile's .Makefile.d."""
+    depfile = os.path.join(COQ, ".Makefile.d")
+    graph = {}
+    if os.path.exists(depfile):
+        for line in open(depfile, errors="replace"):
+            if ":" not in line:
+                continue
+            lhs, rhs = line.split(":", 1)
+            outs = [x for x in lhs.split() if x.endswith(".vo")]
+            ins = [x for x in rhs.split() if x.endswith(".vo") and x.startswith("theories/")]
+            for o_ in outs:
+                graph.setdefault(o_, set()).update(ins)
+    seen, todo = set(), [target]
+    while todo:
+        t = todo.pop()
+        if t in seen:
+            continue
+        seen.add(t)
+        todo.extend(graph.get(t, ()))
+    return seen
 
 
 def coqchk(pid, timeout=1800):
